@@ -1043,6 +1043,8 @@ impl VersionSet {
                     change_manifest.wal_file_number.as_ref(),
                     prev_sequence_num
                 );
+                #[cfg(raindb_verif)]
+                crate::verif_hooks::sched::point("manifest:before_append");
                 let serialized_manifest: Vec<u8> = Vec::from(change_manifest);
                 manifest_file.lock().append(&serialized_manifest)?;
 
